@@ -362,6 +362,7 @@ class Prov:
         self.mesh = mesh_name or (ps[0] if ps else None)
         self.b = b
         self.ids_of = {}
+        self.context = {}          # id(loop / comprehension node) -> kind of the rows it iterates (set while a row block is read)
 
     # mesh.<kind>
     def container_kind(self, e):
@@ -398,8 +399,6 @@ class Prov:
                 for g in reversed(visible):
                     if name in au.assigned_names(g.target):
                         return g.target, g.iter, "comp", a
-            if isinstance(a, (ast.FunctionDef, ast.AsyncFunctionDef)):
-                break
             # assignments earlier in the enclosing block
             if isinstance(child, ast.stmt):
                 blk, _ = au.enclosing_block(child)
@@ -411,6 +410,8 @@ class Prov:
                             return s.targets[0], s.value, "assign", s
                         if sym.Bindings._assigns(s, name):
                             return None
+            if isinstance(a, (ast.FunctionDef, ast.AsyncFunctionDef)):
+                break
             child = a
         return None
 
@@ -422,6 +423,16 @@ class Prov:
         if bd is None:
             return None
         target, src_e, how, node = bd
+        if how in ("for", "comp") and id(node) in self.context:
+            inner, en = strip_enumerate(src_e)
+            if en and isinstance(target, (ast.Tuple, ast.List)) and len(target.elts) == 2:
+                if name in au.assigned_names(target.elts[0]):
+                    return None
+                target = target.elts[1]
+            ckind, corner = self.context[id(node)]
+            if corner:
+                return ("elem", ckind, None) if isinstance(target, ast.Name) else None
+            return self._from_row(target, name, ckind)
         if how in ("for", "comp"):
             inner, en = strip_enumerate(src_e)
             if en:
@@ -472,6 +483,13 @@ class Prov:
             if r is None:
                 return None
             return r[0], r[1] + list(e.generators[0].ifs), r[2]
+        if isinstance(e, ast.IfExp):
+            empty = lambda x: isinstance(x, (ast.List, ast.Tuple)) and not x.elts
+            if empty(e.orelse):
+                return self.rows_info(e.body, at, depth + 1)       # `rows if cond else []`: nothing is written otherwise
+            if empty(e.body):
+                return self.rows_info(e.orelse, at, depth + 1)
+            return None
         if isinstance(e, ast.Name):
             bd = self.find_binding(e.id, at if au.parent(e) is None else e)
             if bd and bd[2] == "assign" and isinstance(bd[0], ast.Name):
